@@ -138,6 +138,9 @@ func (ks *keyset) text(cls, kind string, rng *rand.Rand) string {
 		return k[:len(k)-1-rng.Intn(5)]
 	case "lead_ws":
 		return ws + key(0)
+	case "lead_ws_ssh":
+		// a supported SSH key behind a blank: not a key line (no "ssh-" at the start), and not a documented skip either
+		return ws + ks.sshPK
 	case "trail_ws":
 		return key(0) + ws
 	case "wrong_case":
@@ -636,10 +639,19 @@ func Run(tier string) {
 	})
 	run.Add("cli_encrypted_identity_files", len(encPick))
 	// CLI recipients files with SSH and skipped lines
-	rc := gen(run, "clircp", cfg(run.Pick(2, 3), set("key1", "sshkey"), set("comment", "empty", "long_comment", "long_comment_key"), set("skip"), set("subst1", "pad_bits", "subst_q", "lead_ws", "trail_ws", "other_kind", "two_keys", "ws_only", "key_hash", "wrong_case"), set("lf", "crlf", "none")))
+	rc := gen(run, "clircp", cfg(run.Pick(2, 3), set("key1", "sshkey"), set("comment", "empty", "long_comment", "long_comment_key"), set("skip"), set("subst1", "pad_bits", "subst_q", "lead_ws", "lead_ws_ssh", "trail_ws", "other_kind", "two_keys", "ws_only", "key_hash", "wrong_case"), set("lf", "crlf", "none")))
 	var pick []int
+	hasCls := func(c *fcase, cls string) bool {
+		for _, l := range c.Lines {
+			if l.Cls == cls {
+				return true
+			}
+		}
+		return false
+	}
 	for i := range rc {
-		if len(rc[i].Lines) <= 1 || (i+int(run.Seed))%run.Pick(7, 5) == 0 {
+		// pinned: an indented SSH key next to a key line (alone, the file has no recipient and fails whatever is done with the line)
+		if len(rc[i].Lines) <= 1 || (i+int(run.Seed))%run.Pick(7, 5) == 0 || (len(rc[i].Lines) == 2 && hasCls(&rc[i], "lead_ws_ssh") && (hasCls(&rc[i], "key1") || hasCls(&rc[i], "sshkey"))) {
 			pick = append(pick, i)
 		}
 	}
